@@ -131,7 +131,11 @@ def jobs(tier):
     if tier != "quick":
         cfg += [("positive", 4, 3, None), ("positive", 5, 2, None), ("complex", 1, 2, None), ("complex", 5, 2, None), ("complex", 5, 4, None),
                 ("mixed", 3, 2, 2), ("mixed", 4, 1, 1), ("mixed", 4, 2, 2), ("mixed", 5, 1, 1)]
-    return [dict(name="%s-%d-%d-%s" % (k, n, h, a), module="checks.c08", scenario="scenario", kwargs=dict(kind=k, n=n, h=h, a=a), opts=dict(timeout_ms=120000)) for k, n, h, a in cfg]
+    J = [dict(name="%s-%d-%d-%s" % (k, n, h, a), module="checks.c08", scenario="scenario", kwargs=dict(kind=k, n=n, h=h, a=a), opts=dict(timeout_ms=120000)) for k, n, h, a in cfg]
+    # the X / Y estimators of a mixed state are built from off-diagonal density-matrix elements rho(v', v, expand=False): C02's entrywise
+    # scenario (all call forms, clamp / branch-cut search, float run at larger magnitudes) is run here for one architecture
+    J.append(dict(name="density-matrix-elements-2-2-2", module="checks.c02", scenario="scenario", kwargs=dict(n=2, h=2, a=2), opts=dict(extreme=dict(scale=8.0, points=2))))
+    return J
 
 
 def main(tier, seed):
